@@ -13,6 +13,8 @@ mathematical reals.
 from __future__ import annotations
 
 import itertools
+import os
+import sys
 import time
 from typing import Any, Callable, List, Optional
 
@@ -146,7 +148,10 @@ class Context:
     def prove(self, name: str, goal, kind: str = "post", info: Any = None) -> dict:
         """Record obligation  pc ⊢ goal  and try to discharge it now."""
         g = as_z3_bool(goal)
+        _t0 = time.time()
         res = prove_under(self.pc, g, solver=self.solver, ctxobj=self)
+        if os.environ.get("SHADOW_TRACE"):
+            print(f"[trace] {res['status']:10s} {time.time() - _t0:6.1f}s {name}", file=sys.stderr, flush=True)
         ob = {"name": name, "kind": kind, "status": res["status"], "info": info, "by": res.get("by", "z3")}
         if res.get("model") is not None:
             ob["model"] = res["model"]
